@@ -85,6 +85,11 @@ CHECKS = {
    "Within one run of the server to quiescence, between two consecutive services of one connection every other connection that had a complete call waiting the whole time must have been served; across closures and streaming transitions the number of foreign calls served while an eligible call waits must not exceed connections x (transitions + 1).",
    "Trusted: a call is 'waiting' from the delivery of its last byte (deliveries end at frame boundaries); a call queued behind its own connection's open stream counts as eligible only once the server has seen the stream end. Not claimed: that reply streams make progress while some client keeps calls buffered (the biased select polls streams last; see DESIGN.md §4 notes).",
    "§3 C18"),
+ "C20": ("exploration", "vcheck",
+   "model-based property testing of operation lists (proptest, shrinking) over {set, set through a clone, subscribe, poll subscriber i, clone, drop original} + exhaustive enumeration of every list up to length 7 over {set, subscribe, poll 0, poll 1}, executed against both zlink_tokio::notified and zlink_smol::notified with hand polling; oracle = subscriber model (increasing subsequence of the values set after subscribing, up to date at every Pending, no end while a state exists, end after all states dropped) + one-shot cases",
+   "Every generated and enumerated interleaving of writers and (lagging) readers is run on both runtimes: each subscriber must see a strictly increasing subsequence of the values set after it subscribed, marked continues = true, be up to date whenever a poll returns Pending, never see the end while a state or clone exists and see it (with the latest value delivered) once all are dropped; set must never fail or panic; one-shot notification yields exactly one item marked continues = false, then the end (just the end if the notifier was dropped).",
+   "Trusted: hand polling with a no-op waker - a Pending is read as 'queue empty' (true for both channel implementations); real wake-ups and multi-threaded use are outside this check.",
+   "§3 C20"),
 }
 
 REASONS_PENDING = "check not built yet in this session; planned with property-based testing as described in DESIGN.md §3"
